@@ -31,7 +31,7 @@ var YieldLocks = true
 
 //go:norace
 func (m *MutexModel) Lock(t *Task) {
-	k := K
+	k := kptr.Load()
 	if YieldLocks {
 		park(t, "lock", alwaysReady{})
 	}
@@ -54,7 +54,7 @@ func (m *MutexModel) Lock(t *Task) {
 
 //go:norace
 func (m *MutexModel) TryLock(t *Task) bool {
-	k := K
+	k := kptr.Load()
 	k.lock()
 	defer k.unlock()
 	if m.held {
@@ -67,7 +67,7 @@ func (m *MutexModel) TryLock(t *Task) bool {
 
 //go:norace
 func (m *MutexModel) Unlock(t *Task) {
-	k := K
+	k := kptr.Load()
 	if k.aborted.Load() {
 		return
 	}
@@ -128,7 +128,7 @@ func (m *RWMutexModel) assignID(k *Kernel) {
 
 //go:norace
 func (m *RWMutexModel) RLock(t *Task) {
-	k := K
+	k := kptr.Load()
 	if YieldLocks {
 		park(t, "rlock", alwaysReady{})
 	}
@@ -153,7 +153,7 @@ func (m *RWMutexModel) RLock(t *Task) {
 
 //go:norace
 func (m *RWMutexModel) RUnlock(t *Task) {
-	k := K
+	k := kptr.Load()
 	if k.aborted.Load() {
 		return
 	}
@@ -174,7 +174,7 @@ func (m *RWMutexModel) RUnlock(t *Task) {
 
 //go:norace
 func (m *RWMutexModel) Lock(t *Task) {
-	k := K
+	k := kptr.Load()
 	if YieldLocks {
 		park(t, "wlock", alwaysReady{})
 	}
@@ -204,7 +204,7 @@ func (m *RWMutexModel) Lock(t *Task) {
 
 //go:norace
 func (m *RWMutexModel) Unlock(t *Task) {
-	k := K
+	k := kptr.Load()
 	if k.aborted.Load() {
 		return
 	}
@@ -238,7 +238,7 @@ func (w waitWG) Describe() string { return fmt.Sprintf("WaitGroup(counter=%d)", 
 
 //go:norace
 func (m *WaitGroupModel) Add(d int) {
-	k := K
+	k := kptr.Load()
 	k.lock()
 	m.n += d
 	neg := m.n < 0
@@ -250,7 +250,7 @@ func (m *WaitGroupModel) Add(d int) {
 
 //go:norace
 func (m *WaitGroupModel) Wait(t *Task) {
-	k := K
+	k := kptr.Load()
 	for {
 		k.lock()
 		done := m.n <= 0
